@@ -25,6 +25,10 @@ pub struct Model {
     pub b: i8,
     /// fold (0-based) at which `fit` fails
     pub fail_at: Option<u16>,
+    /// the fitted model writes only the rows with an even sample index and leaves the other entries of the
+    /// target buffer untouched (an abstaining predictor): they keep their `default_target` value
+    #[serde(default)]
+    pub partial: bool,
 }
 
 #[derive(Debug, Clone, Serialize, Deserialize)]
@@ -48,6 +52,10 @@ pub struct Case {
     pub view: bool,
     pub models: Vec<Model>,
     pub eval: Eval,
+    /// memory layout of records and 2-D targets: 0 = standard (row-major), 1 = column-major (Fortran order),
+    /// 2 = rows reversed through a negative stride (view-backed datasets only, otherwise as 1)
+    #[serde(default)]
+    pub layout: u8,
 }
 
 fn rec(i: usize, j: usize) -> f64 {
@@ -59,6 +67,38 @@ fn tgt(i: usize, c: usize) -> f64 {
 
 fn make_records(n: usize, p: usize) -> Array2<f64> {
     Array2::from_shape_fn((n, p), |(i, j)| rec(i, j))
+}
+/// Same logical content in the given memory layout (1 = Fortran order; 2 = storage with the rows in
+/// reverse order, to be viewed through `s![..;-1, ..]`).
+fn make_records_l(n: usize, p: usize, layout: u8) -> Array2<f64> {
+    use ndarray::ShapeBuilder;
+    match layout {
+        1 => Array2::from_shape_fn((n, p).f(), |(i, j)| rec(i, j)),
+        2 => Array2::from_shape_fn((n, p), |(i, j)| rec(n - 1 - i, j)),
+        _ => make_records(n, p),
+    }
+}
+fn make_t1_l(n: usize, layout: u8) -> Array1<f64> {
+    match layout {
+        2 => Array1::from_shape_fn(n, |i| tgt(n - 1 - i, 0)),
+        _ => make_t1(n),
+    }
+}
+fn make_t2_l(n: usize, t: usize, layout: u8) -> Array2<f64> {
+    use ndarray::ShapeBuilder;
+    match layout {
+        1 => Array2::from_shape_fn((n, t).f(), |(i, c)| tgt(i, c)),
+        2 => Array2::from_shape_fn((n, t), |(i, c)| tgt(n - 1 - i, c)),
+        _ => make_t2(n, t),
+    }
+}
+/// effective layout: the reversed-rows form needs a view
+fn eff_layout(c: &Case) -> u8 {
+    match (c.layout, c.view) {
+        (2, false) => 1,
+        (l, _) if l <= 2 => l,
+        _ => 0,
+    }
 }
 fn make_t1(n: usize) -> Array1<f64> {
     Array1::from_shape_fn(n, |i| tgt(i, 0))
@@ -120,6 +160,8 @@ fn classify(c: &Case, obs: &mut Obs) {
     obs.class_if(c.t == 0, "targets_1d");
     obs.class_if(c.t == 1, "targets_2d_1col");
     obs.class_if(c.t >= 2, "targets_2d_multi");
+    obs.class_if(eff_layout(c) == 1, "layout_column_major");
+    obs.class_if(eff_layout(c) == 2, "layout_reversed_rows_view");
     obs.class_if(c.view, "view_backed");
     obs.class_if(!c.view, "owned");
     obs.nontrivial_if(c.n % c.k != 0 || c.t >= 2 || c.models.len() >= 2);
@@ -173,14 +215,26 @@ fn check_fold_pairs<R, T, I>(
 }
 
 fn check_fold(c: &Case, obs: &mut Obs) {
+    use ndarray::s;
     classify(c, obs);
-    let records = make_records(c.n, c.p);
-    if c.t == 0 {
-        let targets = make_t1(c.n);
-        if c.view {
-            let ds = DatasetBase::new(records.view(), targets.view());
+    let l = eff_layout(c);
+    // `fold` copies through axis iterators, so every memory layout must give the same answer
+    let records = make_records_l(c.n, c.p, l);
+    macro_rules! run {
+        ($ds:expr) => {{
+            let ds = $ds;
             if let Some(p) = obs.call("fold", || ds.fold(c.k)) {
                 check_fold_pairs(c, obs, p, std::marker::PhantomData::<()>);
+            }
+        }};
+    }
+    if c.t == 0 {
+        let targets = make_t1_l(c.n, l);
+        if c.view {
+            if l == 2 {
+                run!(DatasetBase::new(records.slice(s![..;-1, ..]), targets.slice(s![..;-1])));
+            } else {
+                run!(DatasetBase::new(records.view(), targets.view()));
             }
         } else {
             let ds = DatasetBase::new(records.clone(), targets.clone());
@@ -194,11 +248,12 @@ fn check_fold(c: &Case, obs: &mut Obs) {
             );
         }
     } else {
-        let targets = make_t2(c.n, c.t);
+        let targets = make_t2_l(c.n, c.t, l);
         if c.view {
-            let ds = DatasetBase::new(records.view(), targets.view());
-            if let Some(p) = obs.call("fold", || ds.fold(c.k)) {
-                check_fold_pairs(c, obs, p, std::marker::PhantomData::<()>);
+            if l == 2 {
+                run!(DatasetBase::new(records.slice(s![..;-1, ..]), targets.slice(s![..;-1, ..])));
+            } else {
+                run!(DatasetBase::new(records.view(), targets.view()));
             }
         } else {
             let ds = DatasetBase::new(records.clone(), targets.clone());
@@ -269,11 +324,13 @@ fn judge_iter_fold(
     }
 }
 
+/// Evaluates to `true` when the call ended in the documented panic for data that is not stored
+/// contiguously in standard order (accepted only when `$accept` says the layout is non-standard).
 macro_rules! iter_fold_body {
-    ($c:expr, $obs:expr, $ds:expr, $records:expr, $targets:expr) => {{
+    ($c:expr, $obs:expr, $ds:expr, $accept:expr) => {{
         let seen: RefCell<Vec<Seen>> = RefCell::new(vec![]);
         let counter = Cell::new(0usize);
-        let res = $obs.call("iter_fold", || {
+        let res = vengine::guard(|| {
             let it = $ds.iter_fold($c.k, |train| {
                 let s = match rows_of(train.records(), train.targets()) {
                     Ok(r) => Seen {
@@ -291,47 +348,82 @@ macro_rules! iter_fold_body {
             it.map(|(obj, valid)| (obj, rows_of(valid.records(), valid.targets())))
                 .collect::<Vec<_>>()
         });
-        if let Some(yielded) = res {
-            judge_iter_fold($c, $obs, &seen.borrow(), &yielded);
+        match res {
+            Ok(yielded) => {
+                judge_iter_fold($c, $obs, &seen.borrow(), &yielded);
+                false
+            }
+            Err(m) => {
+                if $accept {
+                    $obs.class("documented_panic_nonstandard_layout");
+                } else {
+                    $obs.fail("panic:iter_fold", format!("panicked: {m}"));
+                }
+                true
+            }
         }
     }};
 }
 
 fn check_iter_fold(c: &Case, obs: &mut Obs) {
+    use ndarray::s;
     classify(c, obs);
+    let l = eff_layout(c);
+    let accept = l != 0;
     let records0 = make_records(c.n, c.p);
-    let mut records = records0.clone();
+    let mut records = make_records_l(c.n, c.p, l);
+    let panicked;
+    let restored;
     if c.t == 0 {
         let targets0 = make_t1(c.n);
-        let mut targets = targets0.clone();
+        let mut targets = make_t1_l(c.n, l);
         if c.view {
-            let mut ds = DatasetBase::new(records.view_mut(), targets.view_mut());
-            iter_fold_body!(c, obs, ds, records0, targets0);
+            if l == 2 {
+                let mut ds = DatasetBase::new(records.slice_mut(s![..;-1, ..]), targets.slice_mut(s![..;-1]));
+                panicked = iter_fold_body!(c, obs, ds, accept);
+            } else {
+                let mut ds = DatasetBase::new(records.view_mut(), targets.view_mut());
+                panicked = iter_fold_body!(c, obs, ds, accept);
+            }
         } else {
             let mut ds = DatasetBase::new(records, targets);
-            iter_fold_body!(c, obs, ds, records0, targets0);
+            panicked = iter_fold_body!(c, obs, ds, accept);
             records = ds.records().clone();
             targets = ds.targets().clone();
         }
-        obs.ensure(records == records0 && targets == targets0, "iter_fold:not-restored", || {
-            format!("after iter_fold the dataset differs from its original: first feature column {:?}", records.column(0).to_vec())
-        });
+        restored = if l == 2 {
+            records.slice(s![..;-1, ..]) == records0 && targets.slice(s![..;-1]) == targets0
+        } else {
+            records == records0 && targets == targets0
+        };
     } else {
         let targets0 = make_t2(c.n, c.t);
-        let mut targets = targets0.clone();
+        let mut targets = make_t2_l(c.n, c.t, l);
         if c.view {
-            let mut ds = DatasetBase::new(records.view_mut(), targets.view_mut());
-            iter_fold_body!(c, obs, ds, records0, targets0);
+            if l == 2 {
+                let mut ds = DatasetBase::new(records.slice_mut(s![..;-1, ..]), targets.slice_mut(s![..;-1, ..]));
+                panicked = iter_fold_body!(c, obs, ds, accept);
+            } else {
+                let mut ds = DatasetBase::new(records.view_mut(), targets.view_mut());
+                panicked = iter_fold_body!(c, obs, ds, accept);
+            }
         } else {
             let mut ds = DatasetBase::new(records, targets);
-            iter_fold_body!(c, obs, ds, records0, targets0);
+            panicked = iter_fold_body!(c, obs, ds, accept);
             records = ds.records().clone();
             targets = ds.targets().clone();
         }
-        obs.ensure(records == records0 && targets == targets0, "iter_fold:not-restored", || {
-            format!("after iter_fold the dataset differs from its original: first feature column {:?}", records.column(0).to_vec())
-        });
+        restored = if l == 2 {
+            records.slice(s![..;-1, ..]) == records0 && targets.slice(s![..;-1, ..]) == targets0
+        } else {
+            records == records0 && targets == targets0
+        };
     }
+    // whether the call answered or ended in the documented panic, the rows must be where they were
+    let _ = panicked;
+    obs.ensure(restored, "iter_fold:not-restored", || {
+        format!("after iter_fold the dataset differs from its original: first feature column {:?}", records.column(0).to_vec())
+    });
 }
 
 // ------------------------------------------------------------------------------------------------
@@ -343,6 +435,7 @@ struct MockParams {
     b: f64,
     fail_at: Option<usize>,
     calls: Cell<usize>,
+    partial: bool,
 }
 
 struct MockModel {
@@ -350,6 +443,11 @@ struct MockModel {
     b: f64,
     shift: f64,
     t: usize,
+    /// abstaining predictor: rows with an odd sample index are left as `default_target` made them
+    partial: bool,
+}
+fn abstains(partial: bool, first_feature: f64) -> bool {
+    partial && ((first_feature / 8.0).floor() as u64) % 2 == 1
 }
 
 fn train_shift(first_col: ArrayView1<f64>) -> f64 {
@@ -375,6 +473,7 @@ macro_rules! impl_fit {
                     ))));
                 }
                 Ok(MockModel {
+                    partial: self.partial,
                     a: self.a,
                     b: self.b,
                     shift: train_shift(d.records().column(0)),
@@ -390,6 +489,9 @@ impl_fit!(Ix2);
 impl<'b> PredictInplace<ArrayView2<'b, f64>, Array1<f64>> for MockModel {
     fn predict_inplace<'a>(&'a self, x: &'a ArrayView2<'b, f64>, y: &mut Array1<f64>) {
         for (r, out) in x.rows().into_iter().zip(y.iter_mut()) {
+            if abstains(self.partial, r[0]) {
+                continue;
+            }
             *out = self.a * r[0] + self.b + self.shift;
         }
     }
@@ -400,6 +502,9 @@ impl<'b> PredictInplace<ArrayView2<'b, f64>, Array1<f64>> for MockModel {
 impl<'b> PredictInplace<ArrayView2<'b, f64>, Array2<f64>> for MockModel {
     fn predict_inplace<'a>(&'a self, x: &'a ArrayView2<'b, f64>, y: &mut Array2<f64>) {
         for (r, mut out) in x.rows().into_iter().zip(y.rows_mut()) {
+            if abstains(self.partial, r[0]) {
+                continue;
+            }
             for (c, o) in out.iter_mut().enumerate() {
                 *o = self.a * r[0] + self.b + self.shift + c as f64;
             }
@@ -445,7 +550,11 @@ fn reference_scores(c: &Case) -> Result<Vec<Vec<f64>>, Vec<String>> {
                         .iter()
                         .map(|&r| {
                             let extra = if c.t == 0 { 0.0 } else { col as f64 };
-                            let pred = m.a as f64 * rec(r, 0) + m.b as f64 + shift + extra;
+                            let pred = if abstains(m.partial, rec(r, 0)) {
+                                0.0 // the entry keeps the value `default_target` gave it
+                            } else {
+                                m.a as f64 * rec(r, 0) + m.b as f64 + shift + extra
+                            };
                             (pred - tgt(r, col)).abs()
                         })
                         .sum(),
@@ -494,7 +603,7 @@ fn judge_cv(c: &Case, obs: &mut Obs, got: Result<Vec<Vec<f64>>, String>, shape_o
 }
 
 macro_rules! cv_body {
-    ($c:expr, $obs:expr, $ds:expr, $single:expr, $two_d:expr) => {{
+    ($c:expr, $obs:expr, $ds:expr, $single:expr, $two_d:expr, $accept:expr) => {{
         let params: Vec<MockParams> = $c
             .models
             .iter()
@@ -505,13 +614,14 @@ macro_rules! cv_body {
                 b: m.b as f64,
                 fail_at: m.fail_at.map(|f| idx(f, $c.k)),
                 calls: Cell::new(0),
+                partial: m.partial,
             })
             .collect();
         let n = $c.n;
         let k = $c.k;
         let evalk = $c.eval.clone();
         let cols = $c.t.max(1);
-        let r = $obs.call("cross_validate", || {
+        let r = match vengine::guard(|| {
             let res: Result<_, MockError> = $ds.cross_validate(k, &params, |pred, truth| {
                 let pd = pred.view().into_dyn();
                 let td = truth.view().into_dyn();
@@ -552,7 +662,17 @@ macro_rules! cv_body {
                 (rows, shape_ok)
             })
             .map_err(|e| e.to_string())
-        });
+        }) {
+            Ok(v) => Some(v),
+            Err(m) => {
+                if $accept {
+                    $obs.class("documented_panic_nonstandard_layout");
+                } else {
+                    $obs.fail("panic:cross_validate", format!("panicked: {m}"));
+                }
+                None
+            }
+        };
         if let Some(r) = r {
             match r {
                 Ok((rows, shape_ok)) => judge_cv($c, $obs, Ok(rows), shape_ok),
@@ -563,25 +683,43 @@ macro_rules! cv_body {
 }
 
 fn check_cv(c: &Case, obs: &mut Obs) {
+    use ndarray::s;
     classify(c, obs);
     obs.class_if(c.models.len() >= 2, "multi_model");
     obs.class_if(c.models.is_empty(), "no_model");
+    obs.class_if(c.models.iter().any(|m| m.partial), "abstaining_model");
+    obs.class_if(
+        c.models.len() >= 2 && c.models.iter().skip(1).any(|m| m.partial),
+        "abstaining_model_after_another",
+    );
+    let l = eff_layout(c);
+    let accept = l != 0;
     let records0 = make_records(c.n, c.p);
-    let mut records = records0.clone();
+    let mut records = make_records_l(c.n, c.p, l);
     if c.t == 0 {
         let targets0 = make_t1(c.n);
-        let mut targets = targets0.clone();
+        let mut targets = make_t1_l(c.n, l);
         let to0 = |v: Vec<f64>| ndarray::arr0(v[0]);
         if c.view {
-            let mut ds = DatasetBase::new(records.view_mut(), targets.view_mut());
-            cv_body!(c, obs, ds, true, to0);
+            if l == 2 {
+                let mut ds = DatasetBase::new(records.slice_mut(s![..;-1, ..]), targets.slice_mut(s![..;-1]));
+                cv_body!(c, obs, ds, true, to0, accept);
+            } else {
+                let mut ds = DatasetBase::new(records.view_mut(), targets.view_mut());
+                cv_body!(c, obs, ds, true, to0, accept);
+            }
         } else {
             let mut ds = DatasetBase::new(records, targets);
-            cv_body!(c, obs, ds, true, to0);
+            cv_body!(c, obs, ds, true, to0, accept);
             records = ds.records().clone();
             targets = ds.targets().clone();
         }
-        obs.ensure(records == records0 && targets == targets0, "cv:not-restored", || {
+        let restored = if l == 2 {
+            records.slice(s![..;-1, ..]) == records0 && targets.slice(s![..;-1]) == targets0
+        } else {
+            records == records0 && targets == targets0
+        };
+        obs.ensure(restored, "cv:not-restored", || {
             format!("after cross_validate the dataset differs from its original: first feature column {:?}", records.column(0).to_vec())
         });
         // cross_validate_single must agree (same closure contract, scalar result)
@@ -590,7 +728,7 @@ fn check_cv(c: &Case, obs: &mut Obs) {
                 .models
                 .iter()
                 .enumerate()
-                .map(|(i, m)| MockParams { id: i, a: m.a as f64, b: m.b as f64, fail_at: None, calls: Cell::new(0) })
+                .map(|(i, m)| MockParams { id: i, a: m.a as f64, b: m.b as f64, fail_at: None, calls: Cell::new(0), partial: m.partial })
                 .collect();
             let mut ds = DatasetBase::new(records0.clone(), targets0.clone());
             let r = obs.call("cross_validate_single", || {
@@ -616,18 +754,28 @@ fn check_cv(c: &Case, obs: &mut Obs) {
         }
     } else {
         let targets0 = make_t2(c.n, c.t);
-        let mut targets = targets0.clone();
+        let mut targets = make_t2_l(c.n, c.t, l);
         let to1 = |v: Vec<f64>| Array1::from(v);
         if c.view {
-            let mut ds = DatasetBase::new(records.view_mut(), targets.view_mut());
-            cv_body!(c, obs, ds, false, to1);
+            if l == 2 {
+                let mut ds = DatasetBase::new(records.slice_mut(s![..;-1, ..]), targets.slice_mut(s![..;-1, ..]));
+                cv_body!(c, obs, ds, false, to1, accept);
+            } else {
+                let mut ds = DatasetBase::new(records.view_mut(), targets.view_mut());
+                cv_body!(c, obs, ds, false, to1, accept);
+            }
         } else {
             let mut ds = DatasetBase::new(records, targets);
-            cv_body!(c, obs, ds, false, to1);
+            cv_body!(c, obs, ds, false, to1, accept);
             records = ds.records().clone();
             targets = ds.targets().clone();
         }
-        obs.ensure(records == records0 && targets == targets0, "cv:not-restored", || {
+        let restored = if l == 2 {
+            records.slice(s![..;-1, ..]) == records0 && targets.slice(s![..;-1, ..]) == targets0
+        } else {
+            records == records0 && targets == targets0
+        };
+        obs.ensure(restored, "cv:not-restored", || {
             format!("after cross_validate the dataset differs from its original: first feature column {:?}", records.column(0).to_vec())
         });
     }
@@ -653,8 +801,8 @@ fn nk(max_n: usize) -> impl Strategy<Value = (usize, usize)> {
 }
 
 fn case_strategy(max_n: usize, with_models: bool) -> impl Strategy<Value = Case> {
-    let model = (-3i8..=3, -3i8..=3, proptest::option::weighted(0.12, any::<u16>()))
-        .prop_map(|(a, b, fail_at)| Model { a, b, fail_at });
+    let model = (-3i8..=3, -3i8..=3, proptest::option::weighted(0.12, any::<u16>()), proptest::bool::weighted(0.3))
+        .prop_map(|(a, b, fail_at, partial)| Model { a, b, fail_at, partial });
     let models = if with_models {
         proptest::collection::vec(model, 0..=3).boxed()
     } else {
@@ -665,8 +813,9 @@ fn case_strategy(max_n: usize, with_models: bool) -> impl Strategy<Value = Case>
         2 => Just(Eval::FoldConst),
         1 => any::<u16>().prop_map(Eval::FailAt),
     ];
-    (nk(max_n), 1usize..=4, 0usize..=3, any::<bool>(), models, eval).prop_map(
-        |((n, k), p, t, view, models, eval)| Case { n, k, p, t, view, models, eval },
+    let layout = prop_oneof![5 => Just(0u8), 2 => Just(1u8), 1 => Just(2u8)];
+    (nk(max_n), 1usize..=4, 0usize..=3, any::<bool>(), models, eval, layout).prop_map(
+        |((n, k), p, t, view, models, eval, layout)| Case { n, k, p, t, view, models, eval, layout },
     )
 }
 
@@ -681,8 +830,12 @@ fn all_nk(max_n: usize) -> Vec<Case> {
                     p: 1 + (n + k) % 3,
                     t,
                     view: (n + k + t) % 2 == 0,
-                    models: vec![Model { a: 1, b: -1, fail_at: None }, Model { a: -2, b: 2, fail_at: None }],
+                    models: vec![
+                        Model { a: 1, b: -1, fail_at: None, partial: false },
+                        Model { a: -2, b: 2, fail_at: None, partial: (n + k) % 3 == 0 },
+                    ],
                     eval: Eval::AbsErr,
+                    layout: [0u8, 0, 1, 2][(n * 3 + k + t) % 4],
                 });
             }
         }
@@ -698,7 +851,9 @@ pub fn property() -> Property {
                enumerated (N = 40 quick / 70 thorough). Non-trivial = k does not divide n, or >= 2 target columns, or >= 2 candidate models; \
                distinct = distinct canonical JSON of the case",
         assumptions: vec![
-            "k = 0, k > n and non-contiguous storage are documented panics and are not generated".into(),
+            "k = 0 and k > n are documented panics and are not generated".into(),
+            "iter_fold / cross_validate document a panic for data not stored contiguously in standard order: for column-major and reversed-row layouts that panic is an accepted outcome (the dataset must still be intact), but an answer is judged like any other; fold() must work for every layout".into(),
+            "abstaining mock predictors leave some entries of the target buffer untouched: those entries must hold what default_target gave them (0), whatever other candidate models predicted before".into(),
             "scores are compared with relative tolerance 1e-9 (all intermediate values are small integers, sums exact)".into(),
             "when several injected failures coexist, any one of them may surface".into(),
         ],
